@@ -32,7 +32,16 @@ func (ev *Ev) callExpr(x *ast.CallExpr) Value {
 		out = ev.u.call(ev, x, callee)
 	}
 	if hasOrd && !ev.st.dead {
-		ev.u.ghostAt(ev.st, "after "+ord, x.Pos())
+		extra := map[string]Value{}
+		if out.K == vTuple {
+			for i, v := range out.Tuple {
+				extra[fmt.Sprintf("ret%d", i)] = v
+			}
+		} else {
+			extra["ret"] = out
+			extra["ret0"] = out
+		}
+		ev.u.ghostAtWith(ev.st, "after "+ord, x.End(), extra)
 	}
 	return out
 }
@@ -160,6 +169,7 @@ func (ev *Ev) builtin(name string, x *ast.CallExpr) Value {
 		z := u.zero(t)
 		if _, ok := structOf(t); ok {
 			walkValue(z, "", func(path string, l Value) { u.writeField(ev.st, t, path, l.S, ref, l.T) })
+			u.checkTypeInvAlloc(ev, t, ref)
 		} else {
 			ev.assignLV(&LValue{K: lvDeref, Ref: ref, Typ: t}, z)
 		}
@@ -532,6 +542,7 @@ func (u *Unit) callOpaque(ev *Ev, f Value, sig *types.Signature, args []Value, x
 	if !(u.c != nil && (u.c.Flags["callbacks_noheap"] || u.c.Flags["noheap:"+name])) {
 		u.havocHeap(st, "callback "+name)
 	}
+	u.assumeTypeInvs(st)
 	if !nopanic {
 		ps := st.clone()
 		pv := u.fresh("panicval", SRef)
@@ -670,7 +681,7 @@ func (u *Unit) callFunc(ev *Ev, x *ast.CallExpr, f *types.Func, recv *Value) Val
 				sorts = append(sorts, a.S)
 				ts = append(ts, a.T)
 			}
-			fn := u.declareFun(quote("pure:"+key), sorts, res[0].S)
+			fn := u.declareFun(pureName(key, sorts), sorts, res[0].S)
 			res[0] = scalar(app(fn, ts...), res[0].S, res[0].Typ)
 		}
 		if isErrorsNew(key) {
@@ -680,6 +691,7 @@ func (u *Unit) callFunc(ev *Ev, x *ast.CallExpr, f *types.Func, recv *Value) Val
 	}
 	u.uncontracted[key] = true
 	u.havocHeap(st, "uncontracted "+key)
+	u.assumeTypeInvs(st)
 	for _, r := range res {
 		u.assumeAllocated(st, r)
 	}
@@ -755,11 +767,20 @@ func (u *Unit) applyContract(ev *Ev, c *Contract, sig *types.Signature, recv *Va
 			sev.binds[id.Name] = sev.expr(l.RHS)
 		}
 	}
+	if !pureUse && recv != nil && recv.K == vScalar && recv.Typ != nil {
+		if key := typeInvKey(recv.Typ); key != "" && key == u.selfInvKey && !c.Extern {
+			u.emit(st, "typeinv@call "+ord, u.typeInvTerm(st, u.eng.cs.TypeInvs[key], u.namedByKey(key), recv.T), "object invariant of the callee's receiver holds at the call")
+		}
+	}
 	if !pureUse {
 		for i, r := range c.Requires {
 			g := sev.expr(r.Expr)
 			u.emit(st, fmt.Sprintf("pre@%s/%d", ord, i), g.T, "requires "+r.Text)
+			st.assume(g.T) // proved just above (or the check fails): available afterwards
 		}
+	}
+	if !pureUse && c.IterFn != "" {
+		u.callbackIteration(ev, sev, c, pnames, args, ord, pos)
 	}
 	pre := st.clone()
 	// havoc
@@ -767,6 +788,8 @@ func (u *Unit) applyContract(ev *Ev, c *Contract, sig *types.Signature, recv *Va
 		if !c.HasMod && !c.Flags["pure"] {
 			u.havocHeap(st, "callee without modifies: "+c.Key)
 			u.havocGhosts(st)
+			u.famSort("G:calls", arraySort(SRef, SInt))
+			u.havocFam(st, "G:calls", arraySort(SRef, SInt))
 		} else {
 			u.havocModifies(sev, c.Modifies, c)
 		}
@@ -775,6 +798,26 @@ func (u *Unit) applyContract(ev *Ev, c *Contract, sig *types.Signature, recv *Va
 		}
 		if c.Flags["allocates"] {
 			u.growAlloc(st)
+		}
+		if c.Flags["modifies_typeargs"] && recv != nil && recv.Typ != nil {
+			// generic container: the callee may change the state of the objects of its type arguments (e.g. the buckets of a window)
+			rt := recv.Typ
+			if p, ok := rt.Underlying().(*types.Pointer); ok {
+				rt = p.Elem()
+			}
+			if n, ok := rt.(*types.Named); ok && n.TypeArgs() != nil {
+				for i := 0; i < n.TypeArgs().Len(); i++ {
+					ta := n.TypeArgs().At(i)
+					if p, ok := ta.Underlying().(*types.Pointer); ok {
+						ta = p.Elem()
+					}
+					if stt, ok := structOf(ta); ok {
+						for j := 0; j < stt.NumFields(); j++ {
+							u.havocTypeField(sev, ta, stt.Field(j).Name())
+						}
+					}
+				}
+			}
 		}
 	}
 	// results
@@ -836,6 +879,14 @@ func (u *Unit) applyContract(ev *Ev, c *Contract, sig *types.Signature, recv *Va
 	for _, e := range c.Ensures {
 		g := sev.expr(e.Expr)
 		st.assume(g.T)
+	}
+	if !pureUse && recv != nil && recv.K == vScalar && recv.Typ != nil {
+		if key := typeInvKey(recv.Typ); key != "" && u.eng.cs.TypeInvs[key] != nil && !c.Extern {
+			st.assume(u.typeInvTerm(st, u.eng.cs.TypeInvs[key], u.namedByKey(key), recv.T))
+		}
+	}
+	if !pureUse && !(c.HasMod && len(c.Modifies) == 0) {
+		u.assumeTypeInvs(st)
 	}
 	if !pureUse && len(c.Ensures) > 0 {
 		u.emitReach(st, "reach/after "+ord, nBefore, "the assumed postcondition of "+shortKey(c.Key)+" is consistent with the state at the call")
@@ -931,7 +982,28 @@ func (u *Unit) havocModifies(sev *Ev, mods []Clause, c *Contract) {
 					u.havocMap(sev, v)
 					continue
 				case "calls":
+					f := sev.expr(call.Args[0])
+					as := arraySort(SRef, SInt)
+					u.famSort("G:calls", as)
+					u.setFam(st, "G:calls", as, app("store", u.fam(st, "G:calls", as), f.T, u.fresh("calls", SInt)))
 					continue
+				}
+			}
+		}
+		// pkg.T.f form
+		if sel, ok := e.(*ast.SelectorExpr); ok {
+			if s2, ok := sel.X.(*ast.SelectorExpr); ok {
+				if pid, ok := s2.X.(*ast.Ident); ok {
+					if _, bound := sev.binds[pid.Name]; !bound {
+						if p := sev.lookupPkgIfNotVar(pid.Name); p != nil {
+							if tn, ok := p.Scope().Lookup(s2.Sel.Name).(*types.TypeName); ok {
+								if _, isStruct := structOf(tn.Type()); isStruct {
+									u.havocTypeField(sev, tn.Type(), sel.Sel.Name)
+									continue
+								}
+							}
+						}
+					}
 				}
 			}
 		}
@@ -1212,4 +1284,91 @@ func (u *Unit) mathCall(ev *Ev, x *ast.CallExpr, f *types.Func) (Value, bool) {
 		return boolV("false"), true
 	}
 	return Value{}, false
+}
+
+// pureName: uninterpreted function symbol for a pure Go function; variadic functions get one symbol per argument shape.
+func pureName(key string, sorts []Sort) string {
+	var sb strings.Builder
+	sb.WriteString("pure:" + key)
+	for _, s := range sorts {
+		sb.WriteString("/" + strings.NewReplacer(" ", "", "(", "", ")", "").Replace(string(s)))
+	}
+	return quote(sb.String())
+}
+
+// callbackIteration: the callee's contract says it calls parameter IterFn once per idx in [0, IterCount) with IterArg(idx).
+// When the caller passes a function literal, the literal is verified here like a loop body, with the invariants the caller's
+// contract gives for this call site ("call X#k: invariant ..." over idx and the caller's variables).
+func (u *Unit) callbackIteration(ev *Ev, sev *Ev, c *Contract, pnames []string, args []Value, ord string, pos token.Pos) {
+	st := ev.st
+	fi := -1
+	for i, n := range pnames {
+		if n == c.IterFn {
+			fi = i
+		}
+	}
+	if fi < 0 || fi >= len(args) {
+		u.subsetErr(pos, "iterates clause of %s names an unknown parameter %s", shortKey(c.Key), c.IterFn)
+		return
+	}
+	as := arraySort(SRef, SInt)
+	u.famSort("G:calls", as)
+	nV := sev.expr(c.IterCount.Expr)
+	n := app("imax", nV.T, "0")
+	f := args[fi]
+	if f.K != vFunc || f.Fn == nil {
+		// opaque callback handed through: only the number of calls is known
+		if f.T != "" {
+			cur := u.fam(st, "G:calls", as)
+			u.setFam(st, "G:calls", as, app("store", cur, f.T, app("+", app("select", cur, f.T), n)))
+		}
+		if !(u.c != nil && u.c.Flags["callbacks_noheap"]) {
+			u.havocHeap(st, "callback iteration "+c.IterFn)
+		}
+		return
+	}
+	invs := []Clause(nil)
+	if u.c != nil {
+		invs = u.c.CallInvs[ord]
+	}
+	if len(invs) == 0 {
+		u.subsetErr(pos, "call %s passes a closure to a callee that iterates it: the caller's contract needs `call %s: invariant ...`", ord, ord)
+	}
+	u.reached["call "+ord] = true
+	check := func(s *State, idx, phase string) {
+		for i, inv := range invs {
+			se := u.specEv(s, pos, u.name+" call "+ord)
+			se.binds["idx"] = intV(idx)
+			g := se.expr(inv.Expr)
+			u.emit(s, fmt.Sprintf("%s@%s#%d", phase, ord, i), g.T, inv.Text)
+		}
+	}
+	assume := func(s *State, idx string) {
+		for _, inv := range invs {
+			se := u.specEv(s, pos, u.name+" call "+ord)
+			se.binds["idx"] = intV(idx)
+			s.assume(se.expr(inv.Expr).T)
+		}
+	}
+	check(st, "0", "inv_entry")
+	u.havocLoop(st, f.Fn.Body, nil, nil, pos)
+	i := u.fresh("idx", SInt)
+	st.assume(and(app("<=", "0", i), app("<=", i, n)))
+	assume(st, i)
+	if !u.pathBudget() {
+		return
+	}
+	sb := st.clone()
+	sb.assume(app("<", i, n))
+	sev2 := *sev
+	sev2.st = sb
+	sev2.binds = copyBinds(sev.binds)
+	sev2.binds["idx"] = intV(i)
+	elem := sev2.expr(c.IterArg.Expr)
+	u.assumeAllocated(sb, elem)
+	u.execLit(sb, f.Fn, []Value{elem}, pos, func(se *State, _ []Value) {
+		check(se, app("+", i, "1"), "inv_pres")
+	})
+	st.assume(app("=", i, n))
+	u.eng.noteMeta(u, "callback iteration: "+shortKey(c.Key)+" calls its function argument once per index of its iterates clause, in order (clause checked against the callee only for call count and per-call argument)")
 }
